@@ -1,7 +1,7 @@
 (* C07: Honest participants follow protocol discipline in everything they emit.
    Model: Gpbft/Instance.v (Layer N), tied to gpbft.Participant by the event-trace correspondence (harness c07.go). *)
 From Coq Require Import ZArith List Bool.
-From F3 Require Import GoInt QuorumGen Instance InstanceRun InstanceOrder InstanceVotes InstanceConverge.
+From F3 Require Import GoInt QuorumGen Instance InstanceRun InstanceOrder InstanceVotes InstanceConverge InstanceDecide InstanceQuorum QuorumProofs.
 Import ListNotations.
 Open Scope Z_scope.
 
@@ -88,6 +88,39 @@ Theorem C07_converge_never_fails : forall c input now evs,
   i_err (snd (run_hist c (started c input now) evs)) <> Some ENoConvergeValue.
 Proof. exact converge_never_fails. Qed.
 Print Assumptions C07_converge_never_fails.
+
+(* the explicit panics around quorum bookkeeping are unreachable: every PREPARE/COMMIT/DECIDE quorum state is built from
+   q_empty by q_receive (one vote per sender), which maintains QS; on QS states no two values hold a strong quorum, a set
+   hasStrongQuorum flag always yields signers, and tryDecide / beginDecide / tryPrepare->beginCommit do not panic.
+   Hypotheses on the committee: 0 < total < 2^62, non-negative powers, distinct members' powers add up to at most the total *)
+Definition committee_ok (c : config) : Prop :=
+  0 < c_total c < two62 /\ (forall s, 0 <= power_of c s) /\ (forall l, NoDup l -> sum_power c l <= c_total c).
+Theorem C07_QS_maintained : forall c, committee_ok c ->
+  QS c q_empty /\ (forall q sender v, QS c q -> QS c (q_receive c q sender v)) /\ (forall q v j, QS c q -> QS c (q_receive_just q v j)).
+Proof.
+  intros c (H1 & H2 & H3). split; [apply QS_empty|split]; [intros; apply QS_receive; assumption|intros; apply QS_receive_just; assumption].
+Qed.
+Print Assumptions C07_QS_maintained.
+Theorem C07_no_multiple_quorums : forall c, committee_ok c -> forall q, QS c q -> q_find_sq_value q <> FsvPanic.
+Proof. intros c (H1 & H2 & H3) q. apply find_sq_value_no_panic; assumption. Qed.
+Print Assumptions C07_no_multiple_quorums.
+Theorem C07_quorum_always_found : forall c, committee_ok c -> forall q k, QS c q -> q_find_sq_for c q k <> FsqPanic.
+Proof. intros c (H1 & H2 & H3) q k. apply find_sq_for_no_panic; assumption. Qed.
+Print Assumptions C07_quorum_always_found.
+Theorem C07_try_decide_no_panic : forall c, committee_ok c -> forall i,
+  QS c (i_decision i) -> i_err i = None -> i_err (try_decide c i) = None.
+Proof. intros c (H1 & H2 & H3) i. apply try_decide_no_panic; assumption. Qed.
+Print Assumptions C07_try_decide_no_panic.
+Theorem C07_begin_decide_no_panic : forall c, committee_ok c -> forall i round x v,
+  QS c (r_comm (get_round i round)) -> q_find_sq_value (r_comm (get_round i round)) = FsvSome (x :: v) -> i_err i = None ->
+  i_err (begin_decide c (set_pv i (i_proposal i) (x :: v)) round) = None.
+Proof. intros c (H1 & H2 & H3) i round x v. apply begin_decide_no_panic; assumption. Qed.
+Print Assumptions C07_begin_decide_no_panic.
+Theorem C07_try_prepare_no_panic : forall c, committee_ok c -> forall i,
+  QS c (r_prep (get_round i (i_round i))) -> i_err i = None ->
+  i_err (try_prepare c i) <> Some PBeginCommit /\ i_err (try_prepare c i) <> Some PFindQuorum.
+Proof. intros c (H1 & H2 & H3) i. apply try_prepare_no_panic; assumption. Qed.
+Print Assumptions C07_try_prepare_no_panic.
 
 (* non-vacuity: a concrete run (3 members, subject 0 with input [1;2;3]) passes QUALITY, PREPARE, COMMIT and decides *)
 Definition ex_cfg := mkCfg [10; 30; 30] 70 4 2 2000 [2000; 3000; 4500] [700; 900; 1100].
